@@ -153,6 +153,8 @@ func (l *VerifLister) instr(in Instruction) string {
 		return "popscopetransfer"
 	case PrepareCallInstr:
 		return fmt.Sprintf("preparecall:%d", x.nargs)
+	case TailGuardInstr:
+		return fmt.Sprintf("tailguard:%d", x.skip)
 	}
 	return "unknown:" + verifName(fmt.Sprintf("%T", in))
 }
